@@ -8,7 +8,9 @@ open Fh Fh.Model.Srv
 
 Each token is `<op>|<observation>`:
   op   S            a `Serve` call starts (pool 0)            L        its listener is closed
-       Os<ip> Od<ip>  a connection from ip arrives through Serve / ServeConn and sends a request
+       Os<ip> Od<ip>  a connection from ip arrives through Serve / ServeConn and sends a request; a trailing `f`
+                    marks a connection whose transport `Close()` will report an error (every close event of that
+                    connection then carries `err = true`)
        Bs<ip> Bd<ip>  the same with a malformed request
        R<k> Q<k>    handler of connection k released (keep-alive) / next request sent      (no counter changes)
        X<k> C<k>    client closes connection k / handler answers `Connection: close`
@@ -31,10 +33,10 @@ def srvSplit (sep : UInt8) (b : Bytes) : List Bytes :=
 def srvStr (b : Bytes) : String := String.ofList (b.map fun x => Char.ofNat x.toNat)
 
 /-- the acts of the accept loop / the head of ServeConn, in program order; at most one is enabled at a time -/
-def srvEntryActs : List Act :=
-  [.register, .skipWrap, .ipDecide, .acqAdd, .acqDecide, .openInc, .getCh, .openDec, .rejectClose, .concInc, .startServing]
+def srvEntryActs (err : Bool) : List Act :=
+  [.register, .skipWrap, .ipDecide, .acqAdd, .acqDecide, .openInc, .getCh, .openDec, .rejectClose err, .concInc, .startServing]
 
-def srvLeaveActs : List Act := [.cleanupOpen, .cleanupConc, .closeConn, .releaseConc]
+def srvLeaveActs (err : Bool) : List Act := [.cleanupOpen, .cleanupConc, .closeConn err, .releaseConc]
 
 def srvFirst (s : State) (i : Nat) : List Act → Option State
   | [] => none
@@ -68,58 +70,67 @@ def srvOutcome (s : State) (i : Nat) : String :=
   | none => "?"
 
 /-- expand one op; `none` = the op is not possible in this state -/
-def srvApply (s : State) (op : Bytes) : Option (State × String) :=
+def srvApply (s : State) (faults : List Bool) (op : Bytes) : Option (State × String) :=
   match op with
   | [83] => (step s .serveStart).map fun s' => (s', "-")
   | [76] => (step s (.serveStop 0)).map fun s' => (s', "-")
   | kind :: entry :: ipb =>
     if kind = 79 ∨ kind = 66 then do  -- O / B
-      let ip ← natOfDec? ipb
+      let err := ipb.getLast? = some 102
+      let ip ← natOfDec? (if err then ipb.dropLast else ipb)
       let i := s.conns.length
       let s1 ← if entry = 115 then step s (.accept 0 ip) else if entry = 100 then step s (.direct ip) else none
-      let s2 := srvDrive srvEntryActs 12 s1 i
-      let s3 := if kind = 66 then srvDrive srvLeaveActs 6 s2 i else s2
+      let s2 := srvDrive (srvEntryActs err) 12 s1 i
+      let s3 := if kind = 66 then srvDrive (srvLeaveActs err) 6 s2 i else s2
       pure (s3, srvOutcome s3 i)
     else do
       let k ← natOfDec? (entry :: ipb)
+      let err := faults.getD k false
       match kind with
       | 82 | 81 => pure (s, "-")                                  -- R / Q
       | 88 | 67 =>                                                  -- X / C
         let c ← s.conns[k]?
-        if c.phase = .serving then pure (srvDrive srvLeaveActs 6 s k, "-") else none
+        if c.phase = .serving then pure (srvDrive (srvLeaveActs err) 6 s k, "-") else none
       | 72 => do                                                    -- H
         let s1 ← step s (.conn k .hijackStart)
-        pure (srvDrive srvLeaveActs 6 s1 k, "-")
+        pure (srvDrive (srvLeaveActs err) 6 s1 k, "-")
       | 74 => do                                                    -- J
         let s1 ← step s (.conn k .hijackReturn)
-        if s.cfg.keep then pure (s1, "-") else (step s1 (.conn k .hijackClose)).map fun s2 => (s2, "-")
-      | 75 => (step s (.conn k .userClose)).map fun s1 => (s1, "-")  -- K
+        if s.cfg.keep then pure (s1, "-") else (step s1 (.conn k (.hijackClose err))).map fun s2 => (s2, "-")
+      | 75 => (step s (.conn k (.userClose err))).map fun s1 => (s1, "-")  -- K
       | _ => none
   | _ => none
 
-def srvRun : State → List Bytes → Nat → String
-  | s, [], _ =>
+/-- the fault flag a connect op declares (`none` for the other ops) -/
+def srvFault (op : Bytes) : Option Bool :=
+  match op with
+  | kind :: _ :: ipb => if kind = 79 ∨ kind = 66 then some (ipb.getLast? = some 102) else none
+  | _ => none
+
+def srvRun : State → List Bool → List Bytes → Nat → String
+  | s, _, [], _ =>
     let s := srvSettle s
     let quiet := s.conns.all fun c => (match c.phase with | .done _ => true | _ => false) && c.closed && c.hj != .running
     s!"ok {srvSnap s} quiet={if quiet then 1 else 0} serving={servingAll s} pools={s.pools.length}"
-  | s, tok :: rest, n =>
+  | s, faults, tok :: rest, n =>
     match srvSplit 124 tok with
     | [op, obs] =>
       let want := srvStr obs
-      let try1 := srvApply s op
+      let faults' := match srvFault op with | some f => faults ++ [f] | none => faults
+      let try1 := srvApply s faults op
       match try1 with
       | some (s1, o) =>
-        if s!"{o},{srvSnap s1}" = want then srvRun s1 rest (n + 1)
+        if s!"{o},{srvSnap s1}" = want then srvRun s1 faults' rest (n + 1)
         else
-          match srvApply (srvSettle s) op with
+          match srvApply (srvSettle s) faults op with
           | some (s2, o2) =>
-            if s!"{o2},{srvSnap s2}" = want then srvRun s2 rest (n + 1)
+            if s!"{o2},{srvSnap s2}" = want then srvRun s2 faults' rest (n + 1)
             else s!"mismatch@{n} op={srvStr op} observed={want} model={o},{srvSnap s1} model-after-release={o2},{srvSnap s2}"
           | none => s!"mismatch@{n} op={srvStr op} observed={want} model={o},{srvSnap s1}"
       | none =>
-        match srvApply (srvSettle s) op with
+        match srvApply (srvSettle s) faults op with
         | some (s2, o2) =>
-          if s!"{o2},{srvSnap s2}" = want then srvRun s2 rest (n + 1)
+          if s!"{o2},{srvSnap s2}" = want then srvRun s2 faults' rest (n + 1)
           else s!"mismatch@{n} op={srvStr op} observed={want} model-after-release={o2},{srvSnap s2}"
         | none => s!"not-enabled@{n} op={srvStr op}"
     | _ => "bad-token"
@@ -130,6 +141,6 @@ def opsServerCounters (op : String) (a : List Bytes) : Option String :=
     let c ← natOfDec? c
     let m ← natOfDec? m
     let keep ← natOfDec? keep
-    pure (srvRun (State.init ⟨c, m, keep != 0⟩) toks 0)
+    pure (srvRun (State.init ⟨c, m, keep != 0⟩) [] toks 0)
   | _, _ => none
 end Fh.Driver
